@@ -318,7 +318,16 @@ def judge_recv(d, q, code, data):
             return 'well-formed datagram rejected (exception class %d)' % code
         return None if data == arg else 'unwrapped to %s instead of payload %s' % (data.hex(), arg.hex())
     if q and arg.startswith('length byte'):
-        return None         # the caller disabled the length check
+        # the caller disabled the length check: the datagram must then be unwrapped to exactly the
+        # bytes that follow the session header
+        body = d[4:]
+        pay = bytes(body[10 if body[0] == 0 else 26:])
+        if len(pay) == 0:
+            return None
+        if code != 0:
+            return 'length check disabled, but the datagram (%s) is rejected (exception class %d)' % (arg, code)
+        return None if data == pay else 'length check disabled: unwrapped to %s instead of the %d bytes after the ' \
+                                        'session header' % (data.hex(), len(pay))
     if code == 0:
         return 'accepted (-> %s) although: %s' % (data.hex(), arg)
     return None
@@ -328,6 +337,61 @@ def oracle_recv(inp):
     d, q = bytes.fromhex(inp['dgram']), inp['quirk']
     code, data = impl_recv(q, d)
     return judge_recv(d, q, code, data)
+
+
+def reply_datagram(req_dg, data, auth=0, delta=0, zero=False):
+    """the datagram a BMC sends back for request datagram req_dg carrying response data (cc + fields),
+    session header of type `auth`; length byte off by delta (or 0 when zero) - built from the formats"""
+    body = req_dg[4:]
+    f = body[(10 if body[0] == 0 else 26):]
+    rs_sa, b1, _, rq_sa, b4, cmd = f[:6]
+    head = [rq_sa, (((b1 >> 2) | 1) << 2) | (b4 & 3)]
+    head.append(-sum(head) % 256)
+    rest = [rs_sa, (b4 & 0xfc) | (b1 & 3), cmd] + list(data)
+    rest.append(-sum(rest) % 256)
+    frame = bytes(head + rest)
+    ln = 0 if zero else (len(frame) + delta) % 256
+    hdr = bytes([auth]) + bytes([1, 0, 0, 0, 2, 0, 0, 0]) + (bytes(range(16)) if auth != 0 else b'')
+    return bytes([6, 0, 0xff, 7]) + hdr + bytes([ln]) + frame
+
+
+def oracle_quirk_public(inp):
+    """an interface created WITH quirks_cfg={'rmcp_ignore_sdu_length': True} unwraps a reply whose length
+    byte is wrong to exactly its payload; one created without it rejects such a reply - through the
+    public path: constructor / create_interface, send_and_receive_raw behind the scripted socket"""
+    import pyipmi
+    import pyipmi.interfaces
+    rmcp = _rmcp()
+    kw = {} if inp['quirk'] is None else {'quirks_cfg': {'rmcp_ignore_sdu_length': inp['quirk']}}
+    itf = pyipmi.interfaces.create_interface('rmcp', **kw) if inp['via'] == 'create_interface' else rmcp.Rmcp(**kw)
+    data = bytes.fromhex(inp['rsp'])
+
+    class Sock(FakeSock):
+        def sendto(self, pdu, addr):
+            FakeSock.sendto(self, pdu, addr)
+            self.rx = [reply_datagram(bytes(pdu), data, inp['auth'], inp['delta'], inp.get('zero', False))]
+    itf._sock = Sock()
+    itf.host, itf.port = 'bmc', 623
+    itf._session = mk_session(inp.get('st'))
+    raw = bytes.fromhex(inp['raw'])
+    code, got = attempt(lambda: bytes(itf.send_and_receive_raw(pyipmi.Target(0x20), inp['lun'], inp['netfn'], raw)))
+    wrong = inp.get('zero', False) or inp['delta'] % 256 != 0
+    what = 'interface created with %s, reply with length byte %s' % (
+        kw or 'no quirks', 'zero' if inp.get('zero') else '%+d off' % inp['delta'] if wrong else 'correct')
+    if wrong and not inp['quirk']:
+        return None if code != 0 else '%s: accepted (-> %s)' % (what, got.hex())
+    if code != 0:
+        return '%s: rejected (exception class %d) instead of being unwrapped' % (what, code)
+    return None if got == data else '%s: returned %s instead of the response data %s' % (what, got.hex(), data.hex())
+
+
+def oracle_quirk_public_seq(inp):
+    """several interfaces created and used one after the other in ONE process: each per its own setting"""
+    for n, c in enumerate(inp['calls']):
+        msg = oracle_quirk_public(c)
+        if msg:
+            return 'interface %d of the history: %s' % (n, msg)
+    return None
 
 
 # ---- histories: several objects / several calls in ONE process -------------------------
@@ -455,7 +519,8 @@ def oracle_pong(inp):
 
 
 ORACLES = {'send': oracle_send, 'recv': oracle_recv, 'ping': oracle_ping, 'pong': oracle_pong,
-           'quirk_seq': oracle_quirk_seq, 'pack_seq': oracle_pack_seq}
+           'quirk_seq': oracle_quirk_seq, 'pack_seq': oracle_pack_seq, 'quirk_public': oracle_quirk_public,
+           'quirk_public_seq': oracle_quirk_public_seq}
 
 
 def replay(data):
@@ -685,6 +750,36 @@ def run(ctx):
     pong_case(spec_pong(oem_iana=4542, oem_def=1), 'asf-oem-defined-nonzero', 'reject-structure')
     pong_case(spec_pong(interactions=0x80), 'interactions-nonzero', 'reject-structure')
 
+    # ---- the quirk through the public path: interface created with / without it, reply with a wrong length byte
+    qp_done = []
+    for via in ('ctor', 'create_interface'):
+        for quirk in (True, None, False):
+            for auth in (0, 4, 2):
+                for delta, zero in ((0, False), (1, False), (-1, False), (5, False), (0, True), (rng.randrange(6, 250), False)):
+                    st = None if auth == 0 else {'auth': auth, 'sid': rid(), 'seq': rid(), 'act': True, 'pw': rng.choice(okpw)}
+                    inp = {'via': via, 'quirk': quirk, 'auth': auth, 'delta': delta, 'zero': zero, 'st': st,
+                           'rsp': bytes([0] + [rng.randrange(256) for _ in range(rng.choice([0, 3, 15]))]).hex(),
+                           'raw': bytes([rng.choice([1, 0x22, 0x46])] + [rng.randrange(256) for _ in range(rng.choice([0, 2]))]).hex(),
+                           'lun': rng.randrange(4), 'netfn': rng.choice([6, 0x0a, 0x2c])}
+                    key = 'Rmcp:%s:reply-length-byte-%s' % ('quirk-enabled' if quirk else 'no-quirk',
+                                                            'wrong' if (zero or delta) else 'correct')
+                    res.evaluations += 1
+                    msg = oracle_quirk_public(inp)
+                    if msg and key not in fails:
+                        # interfaces created earlier in this process are part of the input unless the case
+                        # fails from a clean start
+                        if not C.holds_in_fresh_process('C05', {'oracle': 'quirk_public', 'input': inp}):
+                            fails[key] = C.Violation(key=key, what=msg, replay={'oracle': 'quirk_public', 'input': inp})
+                        else:
+                            seq = C.shrink_history('C05', 'quirk_public_seq', qp_done + [inp])
+                            fails[key] = C.Violation(
+                                key=key, what=msg + ' [history of %d interface(s)%s]' % (
+                                    len(seq or qp_done) , '' if seq else ', not reproduced from a clean start'),
+                                replay={'oracle': 'quirk_public_seq', 'input': {'calls': seq or qp_done + [inp]}},
+                                found_input=bool(seq))
+                    qp_done.append(inp)
+                    D.add(('qp', repr(inp)), True, 'quirk-public-path')
+
     # ---- end to end: Rmcp.send_and_receive(req) for registered request classes with in-range values
     from . import codec_util as U
     import pyipmi
@@ -802,7 +897,13 @@ def run(ctx):
             calls.append(['send', sid_, bytes(rng.randrange(256) for _ in range(rng.choice([1, 7, 20]))).hex()])
         history('pack_seq', calls, 'history:datagram-depends-on-earlier-session-state', pack_terms)
 
-    failing, errors = C.coq_cases('C05', 'Model.Codec Model.Rmcp Corr.C05', terms)
+    # case files cost time in proportion to their size (long byte-string literals): spread the long
+    # terms evenly over the shards with a fixed permutation, map the failing indices back
+    import random as _random
+    perm = list(range(len(terms)))
+    _random.Random(0).shuffle(perm)
+    failing, errors = C.coq_cases('C05', 'Model.Codec Model.Rmcp Corr.C05', [terms[i] for i in perm], shard=300)
+    failing = sorted(perm[i] for i in failing)
     res.mismatches = [{'case': meta[i], 'term': terms[i][:1500]} for i in failing[:50]]
     res.corr_errors = errors
     res.evaluations += len(terms)
@@ -813,7 +914,8 @@ def run(ctx):
                 'None and over-long payloads, every RMCP sequence number; received: every payload length 0..255 x 3 types x both quirk '
                 'settings (valid; around 0/1/126..129/254/255 also truncated, extended, length byte off); per sampled datagram every truncation, '
                 '1..3-byte extension, every header byte altered, both quirk settings, random bytes; ASF ping, pongs valid / '
-                'truncated / extended / every byte altered; end to end: Rmcp.send_and_receive(req) for ~50 random registered '
+                'truncated / extended / every byte altered; interfaces created with / without the length-check quirk (constructor and '
+                'create_interface) answering send_and_receive_raw with replies whose length byte is correct / +1 / -1 / +5 / 0 / random; end to end: Rmcp.send_and_receive(req) for ~50 random registered '
                 'request classes with in-range values, random addresses / LUN / rq_seq, with and without session; histories in one process: Rmcp / IpmiMsg objects with different '
                 'length-check settings created in varied order, each then receiving valid / wrong-length datagrams; sequences of '
                 'datagrams on the same Session objects with password / type / id / number / activated changed in between. distinct = distinct canonical inputs, all non-trivial')
